@@ -56,9 +56,9 @@ func vxExprRoundTrip(tab *parser.VxTable, maxK int) {
 	vx.Assertf("C06.sql_stable", text2 == text, "serialising the re-parsed tree gives %q, not %q", text2, text)
 }
 
-func VxC06_Expr3() { vxExprRoundTrip(parser.VxC03OpsTable, 3) }
-func VxC06_Expr4() { vxExprRoundTrip(parser.VxC03OpsTable, 4) }
-func VxC06_Expr5() { vxExprRoundTrip(parser.VxC03OpsTable, 5) }
+func VxC06_Expr3()     { vxExprRoundTrip(parser.VxC03OpsTable, 3) }
+func VxC06_Expr4()     { vxExprRoundTrip(parser.VxC03OpsTable, 4) }
+func VxC06_Expr5()     { vxExprRoundTrip(parser.VxC03OpsTable, 5) }
 func VxC06_ExprFull3() { vxExprRoundTrip(parser.VxC03Table, 3) }
 func VxC06_ExprFull4() { vxExprRoundTrip(parser.VxC03Table, 4) }
 
